@@ -166,28 +166,55 @@ def Model.setField (m : Model) (c : String) (v : Value) : Model :=
     | _ => m
   else { m with row := insert m.row c v }
 
-/-- `Mapper.NewRow(info)` without field selection: default values are omitted -/
-def newRow (ts : TableSchema) (m : Model) : Except String OvsRow := do
-  let cols ← (dedupKeys ts.cols).foldlM (fun (acc : OvsRow) c =>
-    match get? ts.cols c, get? m.row c with
-    | some cs, some v =>
-      if isDefaultValue cs v then pure acc
-      else do
-        let o ← nativeToOvs cs v
-        pure (acc ++ [(c, o)])
-    | _, _ => pure acc) []
-  if m.uuid == "" || m.uuid == zeroUUID then pure cols else pure (("_uuid", .atom (.uuid m.uuid)) :: cols)
-where
-  dedupKeys (m : AMap String ColSchema) : List String := (keys m).eraseDups
+def dedupKeys (m : AMap String ColSchema) : List String := (keys m).eraseDups
+
+/-- one column of `Mapper.NewRow`: `skip` says which columns are left out -/
+def newRowStepG (skip : String → ColSchema → Value → Bool) (ts : TableSchema) (m : Model) (acc : OvsRow) (c : String) :
+    Except String OvsRow :=
+  match get? ts.cols c, get? m.row c with
+  | some cs, some v =>
+    if skip c cs v then .ok acc
+    else match nativeToOvs cs v with
+      | .ok o => .ok (acc ++ [(c, o)])
+      | .error e => .error e
+  | _, _ => .ok acc
+
+def newRowG (skip : String → ColSchema → Value → Bool) (ts : TableSchema) (m : Model) (withUUID : Bool) : Except String OvsRow :=
+  match (dedupKeys ts.cols).foldlM (newRowStepG skip ts m) [] with
+  | .ok cols => if !withUUID then .ok cols else .ok (("_uuid", .atom (.uuid m.uuid)) :: cols)
+  | .error e => .error e
+
+/-- `Mapper.NewRow(info)` without field selection: default values are omitted
+    (`_uuid` included: an empty or all-zeros uuid is a default value) -/
+def skipDefault : String → ColSchema → Value → Bool := fun _ cs v => isDefaultValue cs v
+
+def newRow (ts : TableSchema) (m : Model) : Except String OvsRow :=
+  newRowG skipDefault ts m (!(m.uuid == "" || m.uuid == zeroUUID))
+
+/-- `Mapper.NewRow(info, fields...)`: exactly the selected columns, default or not -/
+def skipUnselected (fields : List String) : String → ColSchema → Value → Bool := fun c _ _ => !fields.contains c
+
+def newRowFields (ts : TableSchema) (m : Model) (fields : List String) : Except String OvsRow :=
+  newRowG (skipUnselected fields) ts m (fields.contains "_uuid")
+
+/-- one column of `Mapper.GetRowData` -/
+def getRowDataStep (ts : TableSchema) (row : OvsRow) (acc : Model) (c : String) : Except String Model :=
+  match get? ts.cols c, get? row c with
+  | some cs, some o =>
+    match ovsToNative cs o with
+    | .ok v => .ok (acc.setField c v)
+    | .error e => .error e
+  | _, _ => .ok acc
 
 /-- `Mapper.GetRowData(row, info)`: columns of the schema present in the row
     are converted and stored; others are left untouched -/
 def getRowData (ts : TableSchema) (row : OvsRow) (m : Model) : Except String Model :=
-  (newRow.dedupKeys ts.cols).foldlM (fun (acc : Model) c =>
-    match get? ts.cols c, get? row c with
-    | some cs, some o => do
-      let v ← ovsToNative cs o
-      pure (acc.setField c v)
-    | _, _ => pure acc) m
+  (dedupKeys ts.cols).foldlM (getRowDataStep ts row) m
+
+/-- `model.CreateModel(dbModel, table, row, uuid)` -/
+def createModel (ts : TableSchema) (row : OvsRow) (uuid : UUID) : Except String Model :=
+  match getRowData ts row (newModel ts) with
+  | .ok m => if uuid = "" then .ok m else .ok { m with uuid := uuid }
+  | .error e => .error e
 
 end Ovsdb
